@@ -23,8 +23,9 @@ def make_case(rng, tier, damage, max_damage=4):
         files = [(rng.choice(gen.NAMES), gen.pick_blob(rng, size))]
     else:
         files, _ = gen.tree(rng, B, pl, big=(tier != "quick"))
-        if rng.random() < 0.15:
-            # an entry named like the payload root itself (album/album/...)
+        if rng.random() < 0.15 and len(files) > 1:
+            # an entry named like the payload root itself (album/album/...); a lone file named
+            # like the root would be the BEP 52 single-file shape (ambiguous), so not alone
             rel, blob = files[0]
             clash = "payload/" + rel if rng.random() < 0.5 else "payload"
             if not any(r == clash or r.startswith(clash + "/") or clash.startswith(r + "/")
